@@ -192,6 +192,7 @@ func (RaceScenario) Execute(sim *sched.Sim, ci interface{}, prop string, race bo
 		sim.Optional[p] = true
 	}
 	sim.RoleOf = roleOf
+	sim.Canon = newCanon().canon
 	setRaceHooks(sim.Yield)
 	defer setRaceHooks(nil)
 
